@@ -45,6 +45,10 @@ def main(argv):
         allc = [k for k in cres if k.startswith(r.qual + "::cover")]
         ent = cres.get(f"{r.qual}::cover::entry")
         print(f"   covers: {len(feas)}/{len(allc)} satisfiable; entry={ent[0] if ent else None}")
+        if verbose:
+            for k in allc:
+                if cres[k][0] == "unsat":
+                    print(f"      infeasible: {k.split('::cover::')[1]}")
     rls = sorted(((int(v.reason.split("=")[1]), v.name) for v in vcs if v.reason.startswith("rlimit=")), reverse=True)[:5]
     for rl, nm in rls:
         print(f"   rlimit {rl:>12,d}  {nm.split('::', 1)[1] if '::' in nm else nm}")
